@@ -400,9 +400,9 @@ fn random_call(rng: &mut Rng, r: &Reg, p: &Policy) -> Value {
             let mut al = vec![];
             for _ in 0..na {
                 let tmin = p.minimum_verified_allocation_term + *rng.pick(&[0, 0, 1, -1]);
-                al.push(json!({"provider": *rng.pick(&["m1", "m1", "m2", "c2"]), "data": *rng.pick(&["dA", "dA", "dB"]),
-                    "size": *rng.pick(&[min, min, 2 * min, min / 2]), "tmin": tmin,
-                    "tmax": tmin + *rng.pick(&[0, 2, 5, 11]), "exp": epoch + *rng.pick(&[0, 1, 3, 5, 6, -1])}));
+                al.push(json!({"provider": *rng.pick(&["m1", "m1", "m1", "m2", "m2", "c2"]), "data": *rng.pick(&["dA", "dA", "dB"]),
+                    "size": *rng.pick(&[min, min, min, 2 * min, min / 2]), "tmin": tmin,
+                    "tmax": tmin + *rng.pick(&[0, 2, 5, 11]), "exp": epoch + *rng.pick(&[0, 1, 3, 5, 5, 5, 6, -1])}));
             }
             let mut ex = vec![];
             if !claims.is_empty() && rng.chance(30) {
@@ -416,8 +416,25 @@ fn random_call(rng: &mut Rng, r: &Reg, p: &Policy) -> Value {
             json!({"a": "Transfer", "c": *rng.pick(&["c1", "c1", "c2"]), "to": if rng.chance(93) {"vr"} else {"c2"},
                    "amt": amt.max(0), "allocs": al, "exts": ex, "ids": []})
         }
+        53..=70 if allocs.len() >= 2 && rng.chance(30) => {
+            // several sector groups that can all succeed: distinct open allocations of one provider,
+            // claimed exactly as allocated; sometimes followed by a group without claims
+            let prov = allocs[0]["a"]["provider"].clone();
+            let mine: Vec<&Value> = allocs.iter().filter(|a| a["a"]["provider"] == prov).collect();
+            let take = mine.len().min(*rng.pick(&[2, 2, 3]));
+            let mut sectors = vec![];
+            for (s, a) in mine.iter().take(take).enumerate() {
+                sectors.push(json!({"sector": s + 1, "expiry": epoch + a["a"]["tmin"].as_i64().unwrap() + *rng.pick(&[0, 0, 1]),
+                    "claims": [{"client": a["a"]["client"], "id": a["id"], "data": a["a"]["data"], "size": a["a"]["size"]}]}));
+            }
+            if rng.chance(35) {
+                sectors.push(json!({"sector": take + 1, "expiry": epoch + p.minimum_verified_allocation_term, "claims": []}));
+            }
+            json!({"a": "Claim", "m": prov, "sectors": sectors, "aon": rng.chance(40), "res": []})
+        }
         53..=70 => {
             let ns = *rng.pick(&[1, 1, 2]);
+            let mut who = rng.pick(&["m1", "m1", "m2", "c1"]).to_string();
             let mut sectors = vec![];
             for s in 0..ns {
                 let k = *rng.pick(&[1, 1, 2]);
@@ -426,7 +443,10 @@ fn random_call(rng: &mut Rng, r: &Reg, p: &Policy) -> Value {
                 for _ in 0..k {
                     if !allocs.is_empty() && rng.chance(85) {
                         let a = rng.pick(allocs);
-                        expiry = epoch + a["a"]["tmin"].as_i64().unwrap() + *rng.pick(&[0, 0, 1, -1, 30]);
+                        if rng.chance(80) {
+                            who = a["a"]["provider"].as_str().unwrap().to_string();
+                        }
+                        expiry = epoch + a["a"]["tmin"].as_i64().unwrap() + *rng.pick(&[0, 0, 0, 1, -1, 30]);
                         cl.push(json!({"client": a["a"]["client"], "id": a["id"],
                             "data": if rng.chance(92) { a["a"]["data"].clone() } else { json!("dC") },
                             "size": if rng.chance(95) { a["a"]["size"].clone() } else { json!(512) }}));
@@ -436,7 +456,7 @@ fn random_call(rng: &mut Rng, r: &Reg, p: &Policy) -> Value {
                 }
                 sectors.push(json!({"sector": s + 1, "expiry": expiry, "claims": cl}));
             }
-            json!({"a": "Claim", "m": *rng.pick(&["m1", "m1", "m2", "c1"]), "sectors": sectors, "aon": rng.chance(40), "res": []})
+            json!({"a": "Claim", "m": who, "sectors": sectors, "aon": rng.chance(40), "res": []})
         }
         71..=78 => {
             let ids: Vec<i64> = if rng.chance(40) { vec![] } else { vec![any_id(rng)] };
@@ -489,6 +509,15 @@ pub fn main(args: &[String]) {
         let r = Reg::new(seed.wrapping_mul(1000) + i);
         begin(&mut t, &r);
         let mut calls = vec![];
+        // most traces start with a verifier and a client that hold DataCap, so that allocations and claims happen
+        if rng.chance(80) {
+            for call in [json!({"a": "AddVerifier", "c": "root", "v": "v1", "amt": 64 * 256}),
+                         json!({"a": "AddClient", "c": "v1", "cl": "c1", "amt": 16 * 256}),
+                         json!({"a": "AddClient", "c": "v1", "cl": "c2", "amt": 4 * 256})] {
+                t.line(&r.step(&call));
+                calls.push(call);
+            }
+        }
         for _ in 0..len {
             let call = random_call(&mut rng, &r, &p);
             t.line(&r.step(&call));
